@@ -268,9 +268,56 @@ func (wk *worker) scalarMatrix() {
 	}
 }
 
+// keyMatrix: maps whose key type is each of the type families (every scalar kind, custom, list, set,
+// map, tuple, udt), alone and as the element of a list / a set / the value of a map / a tuple field,
+// decoded into the untyped destination *interface{} (where the codec has to find a Go type for the key
+// by itself, or refuse) and into the universal representation: NULL, the empty map, one and two entries
+// of zero-length keys and values, in every collection format.
+func (wk *worker) keyMatrix() {
+	var keys []*cqlref.Type
+	for _, k := range cqlref.ScalarKinds() {
+		if k == cqlref.Custom {
+			keys = append(keys, cqlref.NewCustom("c.C"))
+		} else {
+			keys = append(keys, cqlref.Scalar(k))
+		}
+	}
+	i32, txt := cqlref.Scalar(cqlref.Int), cqlref.Scalar(cqlref.Text)
+	keys = append(keys, cqlref.NewList(i32), cqlref.NewSet(txt), cqlref.NewMap(i32, txt), cqlref.NewTuple(i32, txt),
+		cqlref.NewUDT("ks", "u", []string{"a", "b"}, []*cqlref.Type{i32, txt}),
+		cqlref.NewMap(cqlref.Scalar(cqlref.Blob), i32), cqlref.NewList(cqlref.NewMap(i32, i32)))
+	inputs := [][]byte{nil, {}, {0, 0, 0, 0}, {0, 0}, {0, 0, 0, 1, 0, 0, 0, 0, 0, 0, 0, 0}, {0, 1, 0, 0, 0, 0},
+		{0, 0, 0, 1, 0xFF, 0xFF, 0xFF, 0xFF, 0xFF, 0xFF, 0xFF, 0xFF}, {0, 0, 0, 2, 0, 0, 0, 0, 0, 0, 0, 0, 0, 0, 0, 0, 0, 0, 0, 0},
+		{0, 0, 0, 1, 0, 0, 0, 4, 0, 0, 0, 0, 0, 0, 0, 4, 0, 0, 0, 0}, {0, 0, 0, 1, 0, 0, 0, 12, 0, 0, 0, 1, 0, 0, 0, 0, 0, 0, 0, 0}}
+	for ki, key := range keys {
+		m := cqlref.NewMap(key, i32)
+		for wi, t := range []*cqlref.Type{m, cqlref.NewList(m), cqlref.NewSet(m), cqlref.NewMap(i32, m), cqlref.NewTuple(i32, m)} {
+			t := t
+			var codec datacodec.Codec
+			if !safely(func() {
+				var err error
+				if codec, _, err = cqlgen.Codec(t); err != nil {
+					panic(err)
+				}
+			}) {
+				wk.counters["generator/case-not-constructible"]++
+				continue
+			}
+			dests := []dcDest{{name: "*interface{}", mk: func() interface{} { return new(interface{}) }}}
+			if safely(func() { cqlgen.TopDest(cqlgen.Universal(t)) }) {
+				dests = append(dests, dcDest{name: "universal", mk: func() interface{} { d, _, _ := cqlgen.TopDest(cqlgen.Universal(t)); return d }})
+			}
+			for i, in := range inputs {
+				wk.dcExec(codec, t, "key-matrix/"+key.Shallow(), dests, in, mut{Class: mcSpecial, O: ki*100 + wi*10 + i}, dcVersions)
+			}
+		}
+	}
+}
+
 func (wk *worker) dcMismatch(block int) {
 	if block == 0 {
 		wk.scalarMatrix()
+		wk.keyMatrix()
 	}
 	pl := wk.plan()
 	p := wk.dcplan()
